@@ -1419,8 +1419,11 @@ def drop_logging(fn, world, modname):
     call of a logging method on a module-level name bound to
     logging.getLogger(...) (or on the logging module), whose arguments call
     nothing.  A handler name that was only read by such a statement is
-    dropped too.  (Assumption, stated by the checks that use this: writing
-    a log record neither raises nor changes what the function computes.)"""
+    dropped too.  A statement whose f-string carries a format spec stays: it
+    is formatted eagerly and can raise.  (Assumption, stated by the checks
+    that use this: writing a log record neither raises nor changes what the
+    function computes; %-style arguments are formatted by the logger, which
+    swallows formatting errors.)"""
     from .inline import acopy
 
     def is_logger(e):
@@ -1445,6 +1448,12 @@ def drop_logging(fn, world, modname):
             if any(isinstance(n, (ast.Call, ast.Await, ast.Yield,
                                   ast.YieldFrom, ast.NamedExpr))
                    for n in ast.walk(a)):
+                return False
+            # an f-string is formatted before the call: a format spec
+            # (`{x:02x}`) raises for a value of the wrong type, and that is
+            # the function's behaviour, not the logger's
+            if any(isinstance(n, ast.FormattedValue) and
+                   n.format_spec is not None for n in ast.walk(a)):
                 return False
         return True
     out = acopy(fn)
